@@ -800,3 +800,23 @@ def install(I):
             return
         raise Unsupported("deepcopy of obj:%s" % v.kind.extra)
     I.lib["deepcopy:obj"] = BuiltinVal("deepcopy:obj", _deepcopy_obj)
+
+
+    # ------------------------------------------------------------------ abstract isomorphism relation (A-vf2)
+    def _iso_rel(I_, st, args, kw):
+        """iso_rel(a, b): label-preserving isomorphism of two graphs under fixed symmetric match functions -- an
+        uninterpreted equivalence relation on the (unmodified) graph objects"""
+        a, b = args[0], args[1]
+        a = I.coerce(a, OBJ("Graph")) if a.kind.tag == "any" else a
+        b = I.coerce(b, OBJ("Graph")) if b.kind.tag == "any" else b
+        f = I.ufunc("iso_rel", core.I, core.I, core.B)
+        if not getattr(I, "_iso_ax", False):
+            I._iso_ax = True
+            x, y, z = z3.Ints("iso_x iso_y iso_z")
+            I.axioms.extend([z3.ForAll([x], f(x, x)),
+                             z3.ForAll([x, y], f(x, y) == f(y, x)),
+                             z3.ForAll([x, y, z], z3.Implies(z3.And(f(x, y), f(y, z)), f(x, z)))])
+            I.assumptions_used.add("A-vf2: isomorphism under symmetric label-equality matchers is an equivalence relation "
+                                   "(reflexive, symmetric, transitive); the graphs are not modified between calls")
+        yield SV(BOOL, f(a.tree, b.tree)), st
+    I.lib["iso_rel"] = BuiltinVal("iso_rel", _iso_rel)
